@@ -423,3 +423,82 @@ Theorem C04_conc_unconditional_restore_refuted :
   all_done st = true /\ (exists w h, c_size st = Fixed w h) /\ c_size st <> st_size toy_state.
 Proof. exact uncond_restore_refuted. Qed.
 Print Assumptions C04_conc_unconditional_restore_refuted.
+
+(** ---- HOW the image came into being (round 8; model/SizingRoute.v): the constructor,
+    [from_file()] or [from_url()], the size given as keyword arguments that may be left out or
+    written out (also as [None]).  Every float arithmetic. ---- *)
+From TI Require Import model.SizingRoute proofs.SizingRouteProofs.
+
+(** the size setting of a new image does not depend on the construction route *)
+Theorem C04_route_irrelevant :
+  forall (FA : FloatArith) (fam : family) (ow oh : Z) (r1 r2 : route) (e : env FA) (kw kh : kwarg),
+    create r1 fam ow oh e kw kh = create r2 fam ow oh e kw kh.
+Proof. exact @route_irrelevant. Qed.
+Print Assumptions C04_route_irrelevant.
+
+(** ... nor on whether a value was written out: only on the values bound to [width] / [height] *)
+Theorem C04_route_explicit_none_irrelevant :
+  forall (FA : FloatArith) (fam : family) (ow oh : Z) (r1 r2 : route) (e : env FA)
+         (kw kh kw' kh' : kwarg),
+    kw_value kw = kw_value kw' -> kw_value kh = kw_value kh' ->
+    create r1 fam ow oh e kw kh = create r2 fam ow oh e kw' kh'.
+Proof. exact @explicit_none_irrelevant. Qed.
+Print Assumptions C04_route_explicit_none_irrelevant.
+
+(** a new image has a dynamic size exactly when no size was given (then [Size.FIT]); every
+    other successful creation stores a FIXED size: what [set_size(width, height)] stores under
+    the environment of the moment of creation *)
+Theorem C04_route_dynamic_iff_no_size :
+  forall (FA : FloatArith) (fam : family) (ow oh : Z) (r : route) (e : env FA) (kw kh : kwarg)
+         (sz : sizeval) (c : Z),
+    create r fam ow oh e kw kh = (Some sz, c) ->
+    c = ok /\
+    ((is_none (kw_value kw) && is_none (kw_value kh) = true /\ sz = Dyn FIT) \/
+     (is_none (kw_value kw) && is_none (kw_value kh) = false /\
+      set_size fam ow oh e (Dyn FIT) (kw_value kw) (kw_value kh) default_frame = (sz, ok) /\
+      exists a b, sz = Fixed a b)).
+Proof. exact @create_dynamic_iff. Qed.
+Print Assumptions C04_route_dynamic_iff_no_size.
+
+(** an image created without a size by ANY route follows the environment: after any history of
+    renders, terminal resizes and cell-ratio changes its rendered size is [_valid_size(FIT)]
+    under the CURRENT environment (with C04_fit_within_frame: within the current frame) *)
+Theorem C04_route_created_dynamic_follows :
+  forall (FA : FloatArith) (fam : family) (ow oh : Z) (r : route) (e : env FA) (kw kh : kwarg)
+         (ops : list (op FA)),
+    is_none (kw_value kw) && is_none (kw_value kh) = true ->
+    forallb keeps_size ops = true ->
+    exists sz, create r fam ow oh e kw kh = (Some sz, ok) /\
+      st_size (run fam ow oh (created_state e sz) ops) = Dyn FIT /\
+      rendered_size fam ow oh (run fam ow oh (created_state e sz) ops)
+      = valid_size fam (env_run e ops) ow oh (DSize FIT) DNone default_frame.
+Proof. exact @created_dynamic_follows. Qed.
+Print Assumptions C04_route_created_dynamic_follows.
+
+(** an image created with a size by ANY route keeps it *)
+Theorem C04_route_created_fixed_unchanged :
+  forall (FA : FloatArith) (fam : family) (ow oh : Z) (r : route) (e : env FA) (kw kh : kwarg)
+         (sz : sizeval) (c : Z) (ops : list (op FA)),
+    is_none (kw_value kw) && is_none (kw_value kh) = false ->
+    create r fam ow oh e kw kh = (Some sz, c) ->
+    forallb keeps_size ops = true ->
+    exists a b, sz = Fixed a b /\
+      st_size (run fam ow oh (created_state e sz) ops) = Fixed a b /\
+      rendered_size fam ow oh (run fam ow oh (created_state e sz) ops) = (a, b).
+Proof. exact @created_fixed_unchanged. Qed.
+Print Assumptions C04_route_created_fixed_unchanged.
+
+(** EXCLUDED: "build the image, then apply the size arguments that were given with set_size":
+    with [width=None, height=None] written out FIT is computed once, at creation (56x28 for a
+    288x288 source in 80x30); after the terminal shrinks to 40x12 the image is wider than the
+    terminal and not what [_valid_size(FIT)] gives now *)
+Theorem C04_route_size_fixed_at_creation_refuted :
+  exists w h,
+    create_with AfterCtor RFromUrl Text 288 288 ex_env (Some DNone) (Some DNone) = (Some (Fixed w h), ok)
+    /\ let s := run Text 288 288 (created_state ex_env (Fixed w h)) shrink_ops in
+       fst (rendered_size Text 288 288 s) > e_cols (st_env s)
+       /\ rendered_size Text 288 288 s
+          <> valid_size Text (st_env s) 288 288 (DSize FIT) DNone default_frame
+    /\ create_with AfterCtor RFromUrl Text 288 288 ex_env None None = (Some (Dyn FIT), ok).
+Proof. exact size_fixed_at_creation_refuted. Qed.
+Print Assumptions C04_route_size_fixed_at_creation_refuted.
